@@ -117,6 +117,8 @@ def _first_run(w, case, plan, mon, like_fault=None):
                     s.save_state("/simfs/out/manual.state")
                 elif ex == "sm":
                     _sm_save(inc, s, mon)
+                elif ex == "sm2":
+                    _sm_save(inc, s, mon, "/simfs/out/sm.pkl")  # shares its stem (and hence StateManager's temp name) with sm.state
         except SimCrash as e:
             out["crashed"] = str(e)
             forget(e)
@@ -133,9 +135,8 @@ def _first_run(w, case, plan, mon, like_fault=None):
     return out
 
 
-def _sm_save(inc, s, mon):
+def _sm_save(inc, s, mon, path="/simfs/out/sm.state"):
     """StateManager.save_state through SimFS (the second save API)."""
-    path = "/simfs/out/sm.state"
     snap = snapshot_state(s.state)
     mon.pending[path] = snap
     inc.world.fs.open_window(f"save:{path}")
@@ -153,7 +154,7 @@ def _sm_save(inc, s, mon):
 
 def _load_fresh(inc, path):
     """Load `path` into a freshly constructed sampler; returns (state, core) or raises."""
-    if path.endswith("sm.state"):
+    if path.endswith("sm.state") or path.endswith("sm.pkl"):
         from tempest.state_manager import StateManager
 
         st = StateManager(inc.world.target.d)
@@ -173,6 +174,12 @@ def verify_files(w, mon, arm, keys, inflight_ok):
         for p in finals:
             if p not in present:
                 res["absent"] += 1
+                # a process crash cannot take an acknowledged file away (the page cache and the namespace survive it):
+                # if the name is gone, a later save to the same name destroyed the old checkpoint before publishing the new one.
+                # (after a machine crash an un-journalled rename may legitimately be lost, so absence is not judged there)
+                if arm == "crash" and keys.get("fault") == "crash.process" and mon.acked.get(p):
+                    w.violation(PROP, "O3.acked_checkpoint_vanished", f"{p} had been saved successfully {len(mon.acked[p])} time(s) but after a process crash during a later save nothing is left under that name "
+                                f"(files present: {sorted(x.split('/')[-1] for x in present)})", **keys)
                 continue
             res["checked"] += 1
             cands = []
@@ -273,8 +280,8 @@ def resume_from(w, mon, path, case, keys, second_fault=None, depth=0):
         w.monitors.remove(cap)
     if out.get("crashed_again") and depth == 0:
         w.bump("fault.fired.second_crash")
-        verify_files(w, mon, "crash", dict(keys, second_crash=True), inflight_ok=True)
-        cks = [p for p in w.fs.files("/simfs/out") if (p in mon.acked or p in mon.pending) and not p.endswith("sm.state")]
+        verify_files(w, mon, "crash", dict(keys, second_crash=True, fault="crash.machine" if (keys.get("fault") == "crash.machine" or second_fault["kind"] == "crash.machine") else "crash.process"), inflight_ok=True)
+        cks = [p for p in w.fs.files("/simfs/out") if (p in mon.acked or p in mon.pending) and not (p.endswith("sm.state") or p.endswith("sm.pkl"))]
         if cks and not w.violations:
             best = max(cks, key=lambda p: (mon.pending.get(p) or mon.acked[p][-1]).get("iter") or 0)
             out["second_resume"] = resume_from(w, mon, best, case, dict(keys, second_crash=True), depth=1)
@@ -330,7 +337,7 @@ def run_one_fault(case, idx, plan, meta, do_resume):
         info.update(v)
         if do_resume:
             cks = [p for p in w.fs.files("/simfs/out") if p in mon.acked or p in mon.pending]
-            cks = [p for p in cks if not p.endswith("sm.state")]
+            cks = [p for p in cks if not (p.endswith("sm.state") or p.endswith("sm.pkl"))]
             if cks:
                 best = max(cks, key=lambda p: (mon.pending.get(p) or mon.acked[p][-1]).get("iter") or 0)
                 if not w.violations:
@@ -393,7 +400,7 @@ def run_case(case):
         merge(stats, {"ff." + k: x for k, x in v.items()})
         if not w.violations and first["completed"]:
             oracles.run_postconditions(w, first["sampler"], case["n_total"], PROP, dict(keys0, phase="uninterrupted"))
-            cks = sorted(p for p in mon.acked if not p.endswith("sm.state"))
+            cks = sorted(p for p in mon.acked if not (p.endswith("sm.state") or p.endswith("sm.pkl")))
             choose = cks if len(cks) <= 3 else rnd.sample(cks, 3)
             for p in choose:
                 r = resume_from(w, mon, p, case, dict(keys0, ck="final" if "final" in p else "periodic"))
@@ -507,7 +514,7 @@ def base_case(rnd, seed, arm):
     progress = rnd.random() < 0.35
     case = dict(arm=arm, seed=seed, target=tgt, cfg=cfg, n_total=rnd.choice([64, 96, 128, 192]), save_every=rnd.choice([1, 2, 3, 5]),
                 progress=progress, stderr=rnd.choice(["stringio", "captured"]) if progress else "stringio",
-                extra_saves=rnd.choice([[], [], ["manual"], ["manual", "manual_again"], ["sm"], ["manual", "sm"]]))
+                extra_saves=rnd.choice([[], [], ["manual"], ["manual", "manual_again"], ["sm"], ["manual", "sm"], ["sm", "sm2"]]))
     case.update(ev)
     if rnd.random() < 0.35:
         # "resume and extend": the resumed run asks for a different number of effective samples
